@@ -5,9 +5,9 @@ import elisp_mini as E
 
 PROP = "C19"
 CONS = "tbjfhswrypkgzcvdm"       # the consonants that double (every consonant that begins a table spelling, save n and the x/l small-kana prefixes)
-GENS = ["gen_elisp"]
-CONE = ["Base/Str.v", "Base/ListUtil.v", "Kana/Romaji.v", "Kana/RomajiProofs.v", "Kana/RomajiIdem.v", "Props/C19.v", "Gen/ElispTables.v"]
-THEOREMS = ["C19_table_typeable", "C19_table_typeable_each", "C19_total", "C19_passthrough", "C19_kana_inert", "C19_sokuon", "C19_idempotent",
+GENS = ["gen_elisp", "gen_kana"]
+CONE = ["Base/Str.v", "Base/ListUtil.v", "Kana/Romaji.v", "Kana/RomajiProofs.v", "Kana/RomajiIdem.v", "Props/C19.v", "Gen/ElispTables.v", "Gen/KanaTable.v"]
+THEOREMS = ["C19_table_typeable", "C19_table_typeable_each", "C19_total", "C19_passthrough", "C19_kana_inert", "C19_sokuon", "C19_sokuon_class", "C19_sokuon_server_spelling", "C19_idempotent",
             "C19_kata_app", "C19_kata_char", "C19_kata_table"]
 IMPORTS = "From Chokan Require Import Base.Str Base.ListUtil Gen.ElispTables Kana.Romaji."
 
